@@ -370,7 +370,7 @@ class Engine:
                 else:
                     seen[k] = len(ded)
                     ded.append((g, v))
-            out = self.prune(ded, 64)
+            out = self.prune(ded, 512)
         return out
 
     def _inst(self, x):
@@ -583,7 +583,7 @@ class _SetBase:
                 b = d.and_(g, p ^ 1)
                 if b != FALSE:
                     nxt.append((b, t))
-            out = E.prune(nxt, 16)
+            out = E.prune(nxt, 256)
             if len(out) > 4096:
                 raise Unsupported('set instantiation explosion')
         return [(g, frozenset(t)) for g, t in out]
@@ -945,23 +945,27 @@ class GList:
         self.gseq = None
 
     @classmethod
-    def _guarded(cls, seq):
+    def _guarded(cls, seq, sep=False):
         r = cls.__new__(cls)
         r.alts = None
         r.gseq = list(seq)
+        r.sep = sep       # lists enumerating a symbolic set (sorted(S), list(S)): keep alternatives apart
         return r
 
     @classmethod
-    def _from(cls, alts):
+    def _from(cls, alts, sep=False):
         r = cls.__new__(cls)
         r.gseq = None
-        r.alts = r._norm(alts)
+        r.sep = sep
+        r.alts = r._norm(alts, sep)
         return r
 
     KEEP_SEPARATE = 48
 
+    sep = False     # True: alternatives of equal length are kept apart (lists derived from guarded sequences)
+
     @staticmethod
-    def _norm(alts):
+    def _norm(alts, sep=False):
         """alternatives with mutually exclusive guards. Identical tuples are merged; as long as there are
         few alternatives they are kept apart even when they have the same length (this keeps the
         elements of one alternative correlated, e.g. for sorted(S)[:4] + sorted(S)[-3:]); beyond
@@ -977,9 +981,9 @@ class GList:
                     break
             else:
                 out.append((g, t))
-        if len(out) > GList.KEEP_SEPARATE:
+        if sep and len(out) > GList.KEEP_SEPARATE:
             out = E.prune_global(out, GList.KEEP_SEPARATE)
-        if len(out) <= GList.KEEP_SEPARATE:
+        if sep and len(out) <= GList.KEEP_SEPARATE:
             out.sort(key=lambda gt: len(gt[1]))
             return out
         by = {}
@@ -1002,7 +1006,7 @@ class GList:
                 for g, t in alts:
                     nxt.append((d.and_(g, p), t + (v,)))
                     nxt.append((d.and_(g, p ^ 1), t))
-                alts = self._norm(E.prune_global(nxt, 16))
+                alts = self._norm(E.prune_global(nxt, 128) if self.sep else nxt, self.sep)
             self.alts = alts
             self.gseq = None
         return self.alts
@@ -1040,12 +1044,12 @@ class GList:
         g = E.g()
         d = E.dag
         if g == TRUE:
-            self.alts = self._norm(newalts)
+            self.alts = self._norm(newalts, self.sep)
             self.gseq = None
         else:
             if self.alts is None:
                 self._need_alts()
-            self.alts = self._norm([(d.and_(g, h), t) for h, t in newalts] + [(d.and_(g ^ 1, h), t) for h, t in self.alts])
+            self.alts = self._norm([(d.and_(g, h), t) for h, t in newalts] + [(d.and_(g ^ 1, h), t) for h, t in self.alts], self.sep)
 
     def append(self, x):
         g = E.g()
@@ -1110,7 +1114,7 @@ class GList:
         if isinstance(i, slice):
             if any(is_sym(x) for x in (i.start, i.stop, i.step)):
                 return E.lift(lambda a, b, c: None, [])  # pragma: no cover
-            return GList._from([(g, t[i]) for g, t in alts])
+            return GList._from([(g, t[i]) for g, t in alts], self.sep)
         res = []
         for h, iv in E.inst(i):
             for g, t in alts:
@@ -1158,13 +1162,13 @@ class GList:
     def copy(self):
         if self.alts is None:
             return GList._guarded(list(self.gseq))
-        return GList._from(list(self.alts))
+        return GList._from(list(self.alts), self.sep)
 
     def concat(self, other):
         a = self._need_alts()
         b = other._need_alts() if isinstance(other, GList) else [(TRUE, tuple(other))]
         d = E.dag
-        return GList._from([(d.and_(g, h), s + t) for g, s in a for h, t in b])
+        return GList._from([(d.and_(g, h), s + t) for g, s in a for h, t in b], self.sep or getattr(other, 'sep', False))
 
     def inst_list(self):
         d = E.dag
@@ -1184,7 +1188,7 @@ class GList:
                     b = d.and_(g, p ^ 1)
                     if b != FALSE and not E.known_false(b):
                         nxt.append((b, t))
-                out = E.prune(nxt, 16)
+                out = E.prune(nxt, 256)
                 if len(out) > 4096:
                     raise Unsupported('guarded sequence instantiation explosion')
             return [(g, list(t)) for g, t in out]
@@ -1889,7 +1893,7 @@ def _list(it=()):
     items = ITER(it)
     if all(g == TRUE for g, _ in items):
         return GList([v for _, v in items])
-    return GList._guarded(items)
+    return GList._guarded(items, sep=isinstance(it, (GSet, FSet)))
 
 
 @override(_b.tuple)
@@ -1986,7 +1990,7 @@ def _sorted(it, key=None, reverse=False):
         srt = sorted(items, key=lambda gv: gv[1], reverse=reverse)
         if all(g == TRUE for g, _ in srt):
             return GList([v for _, v in srt])
-        return GList._guarded(srt)
+        return GList._guarded(srt, sep=True)
     l = _list(it)
     l.sort(key=key, reverse=reverse)
     return l
